@@ -229,6 +229,10 @@ def check_chunks(ck, inp, scn, obs, cpu):
     """work distribution: what acquire_work handed out vs RB.Sched.handout; every non-exclusive run exactly once"""
     if obs.get('chunks') is None:
         return
+    # the parallel scheduler is only selected with more than one core and more than one non-exclusive run
+    if cpu <= 1 or sum(1 for r in scn['runs'] if not r.get('excl', True)) <= 1:
+        ck.count('parallel-scheduler-not-selected')
+        return
     par = [i for i in obs['order'] if not scn['runs'][i].get('excl', True)
            and obs['loaded'][i][0] < scn['runs'][i]['N']]
     handed = sorted(i for c in obs['chunks'] for i in c)
